@@ -5,6 +5,7 @@ import (
 	"fmt"
 	"maps"
 	"math/rand/v2"
+	"reflect"
 	"sort"
 	"strconv"
 	"strings"
@@ -458,6 +459,56 @@ func (e *pmapExec) do(o *Out, f []string) string {
 		}
 		if err != nil || !m2.SlowEqual(e.maps[i]) || !e.maps[i].SlowEqual(m2) {
 			o.Fail("C17", "roundtrip", map[string]string{"format": f[0]}, fmt.Sprintf("%s round trip of m%d: err=%v text=%q", f[0], i, err, string(bs)))
+		}
+		// the same keys with reference-typed values (slices, structs with optional fields, pointers):
+		// every decoded value is its own
+		{
+			type optV struct {
+				A int   `json:"a,omitempty" yaml:"a,omitempty"`
+				B []int `json:"b,omitempty" yaml:"b,omitempty"`
+				P *int  `json:"p,omitempty" yaml:"p,omitempty"`
+			}
+			var rm part.Map[string, optV]
+			want := map[string]optV{}
+			for k, v := range e.mref[i] {
+				ov := optV{}
+				switch v % 4 {
+				case 0:
+					ov.A = v + 1
+				case 1:
+					for j := 0; j <= v%3; j++ {
+						ov.B = append(ov.B, v+j)
+					}
+				case 2:
+					pv := v
+					ov.P = &pv
+				case 3:
+					ov.A, ov.B = v, []int{v}
+				}
+				rm = rm.Set(k, ov)
+				want[k] = ov
+			}
+			var rm2 part.Map[string, optV]
+			var rerr error
+			var rbs []byte
+			if f[0] == "mjson" {
+				rbs, rerr = json.Marshal(rm)
+				if rerr == nil {
+					rerr = json.Unmarshal(rbs, &rm2)
+				}
+			} else {
+				rbs, rerr = yaml.Marshal(rm)
+				if rerr == nil {
+					rerr = yaml.Unmarshal(rbs, &rm2)
+				}
+			}
+			got := map[string]optV{}
+			for k, v := range rm2.All() {
+				got[k] = v
+			}
+			if rerr != nil || !reflect.DeepEqual(got, want) || rm2.Len() != len(want) {
+				o.Fail("C17", "roundtrip", map[string]string{"format": f[0], "values": "reference-typed"}, fmt.Sprintf("%s round trip of the keys of m%d with struct / slice / pointer values: err=%v decoded %d entries, text=%q", f[0], i, rerr, rm2.Len(), string(rbs)))
+			}
 		}
 		return e.pushMap(o, m2, maps.Clone(e.mref[i]), "new:"+f[0])
 	case "mtxn":
